@@ -63,6 +63,16 @@ def handle (st : St) (n : Nat) (line : String) : Result := Id.run do
         let f2 := fail f.st n "C17" s!"configured log {(g "log").getD "?"} has a feeder type but is never fed after start-up: the feeder list and the witness map do not describe the same logs"
         return { st := f2.st, out := f.out ++ f2.out }
       return f
+  | "OMX" :: rest =>
+    let g := field rest
+    let msg := ((g "err").bind hexOfString).map (fun b => String.fromUTF8! (ByteArray.mk b.toArray)) |>.getD "?"
+    let st := st.bump "omni.stopped"
+    if (g "exited").getD "0" == "1" then
+      let f := fail st n "C17" s!"omniwitness.Main stopped at start-up with the configured logs ({(g "store").getD "?"}): {msg.take 160}"
+      let f2 := fail f.st n "C14" s!"omniwitness.Main stopped at start-up: no log is followed ({msg.take 120})"
+      return { st := f2.st, out := f.out ++ f2.out }
+    else
+      return fail st n "C14" s!"{(g "store").getD "?"} {(g "phase").getD "?"}: the service stopped answering GET checkpoint ({(g "unanswered").getD "?"} requests timed out): it no longer follows or serves any log"
   | "HF" :: rest =>
     let g := field rest
     let res := (g "res").getD "?"
